@@ -98,8 +98,10 @@ add(
     "Input part: snapshots of the caller's parameters (value, bounds, flags, expression, standard error), data arrays "
     "and model before/after optimize()+create_result() are identical, and two optimisations with the same optimiser "
     "schedule give identical result terms.",
-    COMMON_NOTE + "Thread schedules of the compiled kernels and process freshness are NOT decided by this check "
-    "(the encoding runs sequential Python semantics); least_squares is the adversarial stub.",
+    COMMON_NOTE + "Thread counts / schedules: decided as race-freedom of every prange loop of every parallel=True kernel found "
+    "in the current source (two-iteration abstraction: i != j and equal index terms of a write and another access is unsat "
+    "for all sizes), which under numba's semantics gives the sequential result for every schedule; interleavings themselves "
+    "and process freshness are not explored. least_squares is the adversarial stub.",
     "3/C10",
 )
 
